@@ -157,13 +157,15 @@ func one(r *rand.Rand, t int, emit func(map[string]interface{})) {
 		for ai := 1; ai <= sh.NA[id]; ai++ {
 			// every action also scribbles on its event and reports ('!') when it finds the scribble of
 			// another execution: each execution is to see the event as it arrived
-			// (only the actions of serial rules write: they run one after the other, so a shared event
+			// every action also leaves a global behind (zzLeak) and reports one it finds: a script sees
+			// its bindings and nothing of an earlier script
+			// (only the actions of serial rules write to the event: they run one after the other, so a shared event
 			// shows as a '!' and not as a fatal concurrent map access of the Go runtime)
 			scribble := ""
 			if sh.Serial[id] {
 				scribble = "event.z = 1; "
 			}
-			code := fmt.Sprintf("if (P('a|%s|'+w+'|'+c+'|%d', 'a|%s|%d')) { throw 'aboom'; } var seen = (event.z === undefined) ? '' : '!'; %s'v|%s|'+w+'|'+c+'|%d' + seen", id, ai, id, ai, scribble, id, ai)
+			code := fmt.Sprintf("if (P('a|%s|'+w+'|'+c+'|%d', 'a|%s|%d')) { throw 'aboom'; } var seen = (event.z === undefined && typeof zzLeak === 'undefined') ? '' : '!'; zzLeak = 1; %s'v|%s|'+w+'|'+c+'|%d' + seen", id, ai, id, ai, scribble, id, ai)
 			acts = append(acts, map[string]interface{}{"code": code})
 		}
 		rule := map[string]interface{}{
